@@ -820,3 +820,55 @@ def rule_node_order(ctx: Ctx) -> None:
                                       "conversion uses", func="_graph_to_density_pure", construct="_graph_to_density_pure: node -> qubit mapping")
     if n < 5:
         raise AnalysisError("node.order: too few sites")
+
+
+# --------------------------------------------------------------------------- index.bit-order
+
+
+def rule_bit_order(ctx: Ctx, rels: List[str]) -> None:
+    """index.bit-order: the density-matrix backend lays qubits out with np.kron, qubit 0 first, so in a computational-basis index b the bit
+    of qubit q is (b >> (n - 1 - q)) & 1.  A shift of a basis index by the bare qubit position reads the qubit mirrored in the register
+    (q <-> n - 1 - q): right for symmetric pairs and two-qubit registers, wrong otherwise."""
+    repo = ctx.repo
+    scanned = hits = 0
+    for rel in rels:
+        m = repo.module(rel)
+        for fn in [f for f in ast.walk(m.tree) if isinstance(f, ast.FunctionDef)]:
+            scanned += 1
+            params = set(func_params(fn))
+            defs = {}
+            for a in ast.walk(fn):
+                if isinstance(a, ast.Assign) and len(a.targets) == 1 and isinstance(a.targets[0], ast.Name):
+                    defs[a.targets[0].id] = a.value
+
+            def is_basis(e, depth=0):
+                if depth > 3:
+                    return False
+                if isinstance(e, ast.Name) and e.id in defs:
+                    return is_basis(defs[e.id], depth + 1)
+                if isinstance(e, ast.Call) and (call_name(e) or "") in ("np.arange", "range", "np.indices") and e.args:
+                    return any(isinstance(x, ast.BinOp) and isinstance(x.op, ast.Pow) and isinstance(x.left, ast.Constant) and x.left.value == 2 for x in ast.walk(e.args[-1])) \
+                        or any(isinstance(x, ast.BinOp) and isinstance(x.op, ast.LShift) for x in ast.walk(e.args[-1]))
+                if isinstance(e, ast.Subscript):
+                    return is_basis(e.value, depth + 1)
+                return False
+            for x in ast.walk(fn):
+                if isinstance(x, ast.BinOp) and isinstance(x.op, ast.RShift) and is_basis(x.left):
+                    hits += 1
+                    ctx.touch(m, fn)
+                    l = linear.lin(x.right, defs) if hasattr(linear, "lin") else None
+                    qs = [k for k in (l or {}) if k in params and ("qubit" in k or "position" in k or "control" in k or "target" in k or "register" in k)]
+                    ns = [k for k in (l or {}) if k and (k.startswith("n_") or k in ("n", "n_qubits", "num_qubits")) and (l or {}).get(k) == 1]
+                    if l is not None and qs and all(l[k] == -1 for k in qs) and ns:
+                        ctx.ok("index.bit-order", m, x, what="bit of qubit q read at n - 1 - q")
+                    elif l is not None and qs and any(l[k] == 1 for k in qs):
+                        ctx.fail("index.bit-order", m, x,
+                                 f"`{short(x)}` reads the bit of qubit `{qs[0]}` at position `{short(x.right)}` counted from the least significant end; the "
+                                 f"backend's np.kron layout puts qubit 0 in the most significant bit, so this addresses qubit n - 1 - {qs[0]}",
+                                 func=qualname_of(fn), construct=f"{qualname_of(fn)}: {short(x, 60)}")
+    ctx.ok_abstract("index.bit-order", f"{scanned} functions scanned, {hits} shifts of a computational-basis index")
+
+
+def qualname_of(fn):
+    from ..core import qualname
+    return qualname(fn)
